@@ -147,6 +147,25 @@ func ruleTypedNilGuard(c *Ctx) {
 									}
 								}
 							}
+						case *ast.CallExpr:
+							// !reflect.ValueOf(subject).IsValid(): the other way of asking for the untyped nil
+							if _, name, pkg, isM := c.calleeMethod(x); isM && pkg == "reflect" && name == "IsValid" {
+								if se, ok := unparen(x.Fun).(*ast.SelectorExpr); ok {
+									src := unparen(se.X)
+									if rid, isId := src.(*ast.Ident); isId {
+										if gfd := c.funcContaining(rid.Pos()); gfd != nil {
+											if ds := c.localDefs(gfd)[c.objOf(rid)]; len(ds) == 1 && ds[0] != nil {
+												src = unparen(ds[0])
+											}
+										}
+									}
+									if vc, isCall := src.(*ast.CallExpr); isCall && c.isPkgFunc(vc, "reflect", "ValueOf") && len(vc.Args) == 1 {
+										if aid, isId := unparen(vc.Args[0]).(*ast.Ident); isId && c.objOf(aid) == subject {
+											untyped = true
+										}
+									}
+								}
+							}
 						case *ast.SelectorExpr:
 							if pid, ok := x.X.(*ast.Ident); ok {
 								if pn, isPkg := c.objOf(pid).(*types.PkgName); isPkg && pn.Imported().Path() == "reflect" {
